@@ -11,6 +11,18 @@ from .core import AnalysisError, Repo, norm, walk_ordered
 from .model import Model, get_model
 
 
+def module_consts(repo: Repo, module: str) -> Dict[str, ast.AST]:
+    """Top-level `NAME = <expr>` assignments of a module, for fold_const's name table (tables and alphabets may be
+    written inline or as module constants)."""
+    out: Dict[str, ast.AST] = {}
+    for st in repo.modules[module].tree.body:
+        if isinstance(st, (ast.Assign, ast.AnnAssign)) and st.value is not None:
+            t = st.targets[0] if isinstance(st, ast.Assign) else st.target
+            if isinstance(t, ast.Name):
+                out[t.id] = st.value
+    return out
+
+
 def fold_const(node: ast.AST, names: Optional[Dict[str, Any]] = None):
     """Fold literals, str + str, str % x, .replace/.strip/.upper/.lower/.join,
     unary minus, inf, len(), list/tuple/dict displays, .keys()."""
